@@ -224,7 +224,9 @@ def bigfile_case(draw):
         segs.append(("tag", k, "lic"))
     return {"segs": segs, "snippet": draw(st.sampled_from(["top", "top", "bottom", "none"])), "eol": draw(st.sampled_from(["\n", "\n", "\r\n"])),
             # an unparseable expression outside every block: the file then contributes nothing at all — in particular nothing from inside a block
-            "bad": draw(st.integers(0, 3)) == 0}
+            "bad": draw(st.integers(0, 3)) == 0,
+            # the markers stand at the end of very long lines (minified code with a trailing comment)
+            "longline": draw(st.sampled_from([0, 0, 0, 1100, 2600]))}
 
 
 def check_bigfile(ctx, c):
@@ -248,6 +250,7 @@ def check_bigfile(ctx, c):
             hidden += 1
         return "# " + v
 
+    lead = ("var a=[" + "1," * (c.get("longline", 0) // 2) + "0]; ") if c.get("longline") else ""
     if c["snippet"] == "top":
         lines.append("# SPDX-SnippetBegin")
     if c.get("bad"):
@@ -258,16 +261,16 @@ def check_bigfile(ctx, c):
         elif seg[0] == "tag":
             lines.append(tagline(seg[1], seg[2], True))
         elif seg[0] == "end":
-            lines.append("# " + END + " (stray)")
+            lines.append(lead + "# " + END + " (stray)")
         else:
-            lines.append("# " + START)
+            lines.append(lead + "# " + START)
             for s2 in seg[1]:
                 if s2[0] == "fill":
                     lines += ["y" * 62] * s2[1]
                 else:
                     lines.append(tagline(s2[1], s2[2], False))
             if seg[0] == "block":
-                lines.append("# " + END)
+                lines.append(lead + "# " + END)
     if c["snippet"] == "bottom":
         lines.append("# SPDX-SnippetBegin")
     text = c["eol"].join(lines) + c["eol"]
@@ -281,6 +284,12 @@ def check_bigfile(ctx, c):
     exp_cop = {v for v in vis_cop if v + "\n" in ref or ref.endswith(v)}
     if c.get("bad"):
         exp_lic, exp_cop = set(), set()
+    if not whole and len(data) > 4096 and not scanned.endswith((b"\n", b"\r")):
+        last = scanned.replace(b"\r", b"\n").rsplit(b"\n", 1)[-1]
+        if b"SPDX-" in last or b"REUSE-" in last:
+            # a tag or marker line is cut in two by the 4096-byte window: what the cut-off piece means is not stated
+            ctx.excluded["tag-or-marker-line-straddles-the-window"] += 1
+            return
     if "hidden" in ref.lower():
         from vlib import HarnessError
 
@@ -297,7 +306,8 @@ def check_bigfile(ctx, c):
                 ctx.fail(case, f"big.py became a read error: {res.err[-300:]}")
             ctx.fail(case, "lint --json does not list big.py")
         gc, ge = tree.entry_sets(ent)
-        ctx.count(data, nontrivial=hidden > 0 and len(data) > 4096, labels=["bigfile", f"bigfile:snippet={c['snippet']}", f"bigfile:kb={min(len(data) // 4096, 8)}"],
+        ctx.count(data, nontrivial=hidden > 0 and (len(data) > 4096 or bool(c.get("longline"))),
+                  labels=["bigfile", f"bigfile:snippet={c['snippet']}", f"bigfile:kb={min(len(data) // 4096, 8)}", f"bigfile:markers-after-column={c.get('longline', 0)}"],
                   sample={"size": len(data), "snippet": c["snippet"], "segments": [s3[0] for s3 in c["segs"]]})
         if gc != exp_cop or ge != exp_lic:
             leaked = {x for x in gc | ge if "idden" in x}
